@@ -231,6 +231,7 @@ impl Plan {
                 let d = p.pc.lock().as_ref().and_then(|pc| pc.verif_dtls_transport());
                 match d {
                     Some(d) if matches!(d.get_state(), rustrtc::transports::dtls::DtlsState::Connected(..)) => {
+                        log("life", &p.label, "fire", json!({"event": "OwnDtlsClose", "ord": 0}));
                         d.close();
                         // a peer that said goodbye is gone shortly afterwards
                         let p2 = p.clone();
@@ -265,6 +266,7 @@ impl Plan {
                         };
                         let p2 = p.clone();
                         let is_shutdown = ev == "PeerSctpShutdown";
+                        log("life", &p.label, "fire", json!({"event": if is_shutdown { "OwnSctpShutdown" } else { "OwnSctpAbort" }, "ord": 0}));
                         self.handle.spawn(async move {
                             let _ = d.send(bytes::Bytes::from(pkt)).await;
                             if is_shutdown {
